@@ -641,8 +641,6 @@ class Recfile(object):
             # single element
             if num < 0:
                 num = self.nrows + num
-            elif num > (self.nrows - 1):
-                num = self.nrows - 1
 
         return num
 
